@@ -35,7 +35,7 @@ def run(rep, tier, seed, replay):
     pr = vlib.prove(rep, PROP)
     vlib.prepare_runners()
     quick = tier == "quick"
-    res = differential(rep, PROP, "c14", seed, 3000 if quick else 100000, tier, model_modes=["c14", "c14spec", "c14master"])
+    res = differential(rep, PROP, "c14", seed, 3000 if quick else 50000, tier, model_modes=["c14", "c14spec", "c14master"])
     cases, impl, model, spec = res["cases"], res["impl"], res["models"]["c14"], res["models"]["c14spec"]
     mm = [i for i in range(len(cases)) if not same(impl[i], model[i])]
     add_corr(rep, "handleRequest + chooseHost against fake backends: reply and (address, body) of everything that reached a backend, implementation vs model", res, mm, len(set(cases)))
